@@ -3,7 +3,7 @@ from __future__ import annotations
 
 from .. import core, schema_h, translate_schema
 from ..runner import Suite
-from ..schema_suites import ModelCases, attr_name_members, gen, lossless
+from ..schema_suites import FreshOrder, ModelCases, attr_name_members, gen, lossless, py_conforms
 
 MANIFEST = dict(
     text="Lean 4 theorems about the executable model of validate + model_dump(by_alias, exclude_none) over the regenerated field tables of every McpPydanticBase subclass: for every conforming wire value (any depth, any size) every member of the input is preserved exactly under its wire name, unknown members included, and every added member is a declared default; plus a decide-checked table theorem over every .model_dump( / .model_dump_json( call found in src/ by the AST translator: a call whose result can reach the wire and whose receiver class reaches an aliased field passes by_alias=True. Correspondence on both backends and the Lean model, and a dynamic cross-check that executes the library-side serialisers (elicitation request builder, tool_result_to_dict, content_to_dict, roots / sampling / completion / initialize builders) with every alias populated.",
@@ -37,16 +37,24 @@ ASSUMPTIONS = [
 ]
 
 
-class Lossless(ModelCases):
-    name = "lossless"
-    compare_tree = False
-
-    def oracle(self, case, o):
+def lossless_oracle(case, o):
+    """C10 on one input: a spec-valid wire object has a typed view (it is accepted) and the view
+    re-serialises to an object that preserves every member and adds nothing but declared defaults —
+    inside free-form Dict[str, Any] / Any payloads nothing is added or removed at any depth"""
+    if True:  # (kept as a block: one oracle shared by the batch and the fresh-process suites)
         S = schema_h.schema()
         t = {"k": "ref", "cls": case["cls"]}
+        both = attr_name_members(case) == "both"
         for side in ("pydantic", "fallback"):
             b = o[side]
-            if not b.get("ok") or "dump" not in b:
+            if not b.get("ok"):
+                if attr_name_members(case) is None and py_conforms(S, t, case["wire"]):
+                    return ("valid-object-rejected", f"{case['cls']}: a spec-valid wire object is rejected by the {side} backend "
+                            f"({b.get('exc')}), so it has no typed view", {"accepted": True})
+                if both:
+                    return ("alias-and-attribute-name-members", f"{case['cls']}: rejected by the {side} backend", None)
+                continue
+            if "dump" not in b:
                 continue
             r = lossless(S, t, case["wire"], b["dump"])
             if r is not None:
@@ -55,6 +63,19 @@ class Lossless(ModelCases):
                     key = "alias-and-attribute-name-members"
                 return (key, f"{case['cls']} under the {side} backend: {what}", {"preserved": case["wire"]})
         return None
+
+
+class Lossless(ModelCases):
+    name = "lossless"
+    compare_tree = False
+
+    def oracle(self, case, o):
+        return lossless_oracle(case, o)
+
+
+class Order(FreshOrder):
+    def step_oracle(self, step, o):
+        return lossless_oracle(step, o)
 
 
 HELPER_SITES = {
@@ -215,4 +236,4 @@ def extra(ctx, tier):
 
 
 def suites():
-    return [Lossless(), DumpSites()]
+    return [Lossless(), DumpSites(), Order()]
